@@ -126,6 +126,29 @@ def _history_export(job):
         return None, du.exc_text(e)
 
 
+def hash_seed_traces(cases, chk, seeds=(1, 2, 3)):
+    """Deterministic across interpreter processes: the same case designed in new python processes that only differ by
+    their string hash seed (what a user gets when starting the same script several times) must export identically"""
+    if not cases:
+        return []
+    res = du.designs_in_fresh_interpreters(cases, (0,) + tuple(seeds))
+    traces = []
+    for k, c in enumerate(cases):
+        name = c08.case_name(c) + ' @hash-seeds'
+        chk.case(name, nontrivial=True)
+        docs = [res[s][k] for s in (0,) + tuple(seeds)]
+        if any('error' in d for d in docs):
+            if not all('error' in d for d in docs):
+                chk.violation(f'B2|exception|design-in-another-process|{c17_features(c)}',
+                              dict(case=name, results=[d.get('error', 'ok') for d in docs]))
+            continue
+        scales = {}
+        traces.append(dict(name=name, s=dict(none=1), inp=[], _feat='hash-seed|' + c17_features(c),
+                           ev=[dict(op='Export', x=du.project_export(docs[0], scales))] +
+                              [dict(op='Twin', x=du.project_export(d, scales)) for d in docs[1:]]))
+    return traces
+
+
 def history_traces(cases, chk):
     """Deterministic across process histories: export(design(x, A)) in a fresh process vs in a process that designed
     with library B before; every design runs in its own forked process (maxtasksperchild=1)"""
@@ -179,9 +202,13 @@ def chain_kind(c):
                    ('+perfreq' if e.get('ct') else '') + ('+conI' if e['ci'] != NONE else '') + ('+conO' if e['co'] != NONE else '')
         if e['t'] == 'Edfa':
             u = e['u'][0]
-            tag += 'full' if u['gain'] != NONE else 'partial' if u['variety'] else 'voa' if u['voa'] != NONE else 'none'
+            tag += 'zero' if u['gain'] == NONE and u['dp'] == 0 else 'full' if u['gain'] != NONE else \
+                'partial' if u['variety'] else 'voa' if u['voa'] != NONE else 'none'
+        if e['t'] == 'Multiband_amplifier':
+            tag += 'none' if not e['u'] else 'zero' if e['u'][0]['gain'] == NONE else 'full'
         out.append(tag)
-    return '-'.join(out) + ('' if c['s'].get('insert', True) else '|noinsert')
+    return '-'.join(out) + ('' if c['s'].get('insert', True) else '|noinsert') + \
+        (f"|P={c['s']['power']}" if c['s'].get('power') else '')
 
 
 def settings_l8(c):
@@ -239,7 +266,8 @@ def c17_features(case):
     if any(e.get('ai', 0) not in (0, NONE) for e in case['g']):
         return 'user_att_in'
     raman = any(e['t'] == 'RamanFiber' for e in case['g'])
-    return ('raman|' if raman else '') + ('power' if s['powerMode'] else 'gain')
+    return ('raman|' if raman else '') + ('multiband|' if s.get('bands', 1) == 2 else '') + \
+        ('power' if s['powerMode'] else 'gain')
 
 
 def run(chk):
@@ -268,8 +296,8 @@ def run(chk):
     stride = 13 if tier == 'quick' else 5         # coprime with the number of Span settings per topology
 
     def plain(c):     # no user amplifier / attenuator / fibre parameter, no Raman
-        return not any(e['t'] in ('Edfa', 'RamanFiber') or e.get('ai', 0) not in (0, NONE) or e.get('o') or e.get('ct')
-                       for e in c['g'])
+        return not any(e['t'] in ('Edfa', 'RamanFiber', 'Multiband_amplifier') or e.get('ai', 0) not in (0, NONE)
+                       or e.get('o') or e.get('ct') for e in c['g']) and not c['s'].get('power')
     if tier == 'thorough':
         # 2-ROADM shape: every chain kind x every Span setting; larger shapes: every 5th case
         picked = two + more[chk.seed % stride::stride]
@@ -329,6 +357,13 @@ def run(chk):
     for t in ht:
         report(t, hv[t['name']], chk, 'B2', t['_feat'])
     chk.cov['b2_process_history_pairs'] = len(ht)
+    # ---- B2 (a''): multiband sites designed in interpreters started with different string hash seeds
+    multi = [c for c in two if c['s'].get('bands', 1) == 2 and (tier == 'thorough' or c['s']['eol'] == 0)]
+    st = hash_seed_traces(multi, chk)
+    sv = judge(st, chk, 'c17-seeds')
+    for t in st:
+        report(t, sv[t['name']], chk, 'B2', t['_feat'])
+    chk.cov['b2_hash_seed_cases'] = len(st)
     chk.cov['t_b2_judged_s'] = round(time.time() - t0, 1)
     # ---- B2 (b): SimParams settings around the real designed_network on Raman topologies
     sim_traces = sim_runs(sims if tier == 'thorough' else pick_sims(sims, chk.seed), chk)
